@@ -132,10 +132,11 @@ def run(tier, seed, jobs) -> Result:
             b = 1  # >100 choice points each: two deviations are explored in the thorough tier (and copy|delete-dst, copy|copyback stay at 2 here)
         if tier != "quick":
             sc = dict(sc, loopopts=dict(sc.get("loopopts") or {}, preempt_timers=True))
-            if sc["name"] in ("expunge|fetch3", "expunge|store3", "expunge|search", "expunge|uidfetch", "close|fetch2", "store|fetchbody",
-                              "store|store", "fetchbody|search", "append|fetchflags", "append|append", "select|select-inactive"):
-                b = 3
-        r = sched.explore(sc, b, jobs, seed, max_exec=20000 if tier == "quick" else 80000)
+            if sc["name"] in ("expunge|fetch3", "expunge|store3", "expunge|search", "expunge|uidfetch", "close|fetch2", "fetchbody|search",
+                              "select|select-inactive", "expunge|noop", "expunge|expunge", "reselect,noop|expunge", "expunge|fetchall slow reader",
+                              "expunge|uidfetch slow reader", "close|search slow reader"):
+                b = 3  # (<= ~70 choice points: the third wave stays below ~40 000 executions)
+        r = sched.explore(sc, b, jobs, seed, max_exec=20000 if tier == "quick" else 120000)
         res.failures.extend(r["failures"])
         tot_exec += r["executions"]
         tot_steps += r["steps"]
